@@ -91,7 +91,7 @@ def gen_history(rng, nsteps, allow_entries=("eval", "keep", "direct"), edit_kind
         elif r < 0.38:
             steps.append(("eval", "entry_switch"))
         else:
-            steps.append(("eval", rng.choice(["body", "body", "var", "var", "const_arg", "unrelated_fun", "unrelated_var", "reorder", "ext", "delete_call", "whitespace", "rt_arg", "multiline", "wrap_lit", "wrap_lit"])))
+            steps.append(("eval", rng.choice(["body", "body", "var", "var", "const_arg", "unrelated_fun", "unrelated_var", "reorder", "ext", "delete_call", "whitespace", "rt_arg", "multiline", "wrap_lit", "wrap_lit", "inplace_var", "inplace_var"])))
     return steps
 
 
@@ -175,7 +175,10 @@ def run_histories(ctx, res, n_hist, max_steps, store_kinds=("memory",), nfun=Non
                     else:
                         w2, desc = e
                         order = desc.get("order")
-                        s.set_world(w2, order)
+                        if desc.get("inplace"):
+                            s.mutate_in_place(w2, desc["inplace"])
+                        else:
+                            s.set_world(w2, order)
                         msteps.append({"world": progs.model_world(w2, s.extmod)})
                         worlds.append(copy.deepcopy(w2))
                 r, rr = s.run(entry)
